@@ -92,7 +92,11 @@ func sharedConsumerGrammar(r *Rand) *Grammar {
 	var alts []int
 	k := r.Range(2, 4)
 	for i := 0; i < k; i++ {
-		alts = append(alts, add(GNode{Op: "op", Arg: lits[r.Intn(len(lits))]}))
+		a := add(GNode{Op: "op", Arg: lits[r.Intn(len(lits))]})
+		if r.Chance(1, 4) {
+			a = add(GNode{Op: "opt", Kids: []int{a}}) // an empty alternative that is not the last one
+		}
+		alts = append(alts, a)
 	}
 	m := add(GNode{Op: "any", Kids: alts, Memo: true})
 	consumer := func() int {
